@@ -560,9 +560,16 @@ class SpaceEncoder(BaseEncoder):
 
         datafile = self.datapath / "_dynamic_inputs"
 
-        if self.space._named_itemspaces:
+        # Input values in derived cells are output as well, as derived cells
+        # have no definitions in the source file to associate them with.
+        derived = [cells for cells in self.space.cells.values()
+                   if cells._is_derived() and cells._impl.input_keys]
+
+        if self.space._named_itemspaces or derived:
 
             def callback(f):
+                for cells in derived:
+                    self._pickle_cells_inputs(f, cells, self.space)
                 for s in self.space._named_itemspaces.values():
                     self._pickle_dynamic_space(f, s, self.space)
 
@@ -573,31 +580,35 @@ class SpaceEncoder(BaseEncoder):
     def _pickle_dynamic_space(self, file, space, static_parent):
 
         for cells in space.cells.values():
-            for key in cells._impl.input_keys:
-                value = cells._impl.data[key]
-                keyid = id(key)
-                if keyid not in self.writer.pickledata:
-                    self.writer.pickledata[keyid] = key
-                valid = id(value)
-                if valid not in self.writer.pickledata:
-                    self.writer.pickledata[valid] = value
-
-                idtuple = TupleID(abs_to_rel_tuple(
-                    cells._idtuple, static_parent._idtuple))
-                idtuple.pickle_args(self.writer.pickledata)
-                file.write(
-                    "(%s, %s, %s)\n" % (idtuple.serialize(), keyid, valid)
-                )
-
-                if self.writer.log_input:
-                    self.writer.input_log.append(
-                        output_input(cells, key))
+            self._pickle_cells_inputs(file, cells, static_parent)
 
         for subspace in space.named_spaces.values():
             self._pickle_dynamic_space(file, subspace, static_parent)
 
         for subspace in space._named_itemspaces.values():
             self._pickle_dynamic_space(file, subspace, static_parent)
+
+    def _pickle_cells_inputs(self, file, cells, static_parent):
+
+        for key in cells._impl.input_keys:
+            value = cells._impl.data[key]
+            keyid = id(key)
+            if keyid not in self.writer.pickledata:
+                self.writer.pickledata[keyid] = key
+            valid = id(value)
+            if valid not in self.writer.pickledata:
+                self.writer.pickledata[valid] = value
+
+            idtuple = TupleID(abs_to_rel_tuple(
+                cells._idtuple, static_parent._idtuple))
+            idtuple.pickle_args(self.writer.pickledata)
+            file.write(
+                "(%s, %s, %s)\n" % (idtuple.serialize(), keyid, valid)
+            )
+
+            if self.writer.log_input:
+                self.writer.input_log.append(
+                    output_input(cells, key))
 
 
 class RefViewEncoder(BaseEncoder):
